@@ -77,7 +77,9 @@ def cases(ctx: Ctx):
 
 def run(ctx: Ctx) -> Result:
     res = Result()
-    if ctx.replay is not None:
+    if ctx.replay is not None and 'rle' in ctx.replay['replay']:
+        cs = [(ctx.replay['replay']['urn'], unrle(ctx.replay['replay']['rle']))]
+    elif ctx.replay is not None:
         cs = [(ctx.replay['replay']['urn'], ctx.replay['replay']['readings'])]
     else:
         cs = list(cases(ctx))
@@ -115,6 +117,14 @@ def run(ctx: Ctx) -> Result:
     for v in setup_prefix_violations():
         res.violations.append(v)
     res.add_case({'setup': 'BoboSetupSimple / BoboSetupSimpleDistributed generators of two instances'})
+    # busy seconds around the integer constants of the module (and, thorough, around 2^16 and 10^5)
+    if ctx.replay is None:
+        consts = sorted(set(source_constants() + ([65536, 100000] if ctx.thorough else [])))
+        v = busy_violation(consts, res)
+        res.add_case({'busy_seconds_around': consts})
+        res.count('busy_second_scripts', 7 * 2 * len(consts))
+        if v is not None:
+            res.violations.append(v)
     # concurrent callers on real threads under a jittering patched clock (monitored residue)
     if ctx.replay is None:
         ids = threaded_ids(8, 2000 if ctx.thorough else 300, ctx.rng)
@@ -386,9 +396,66 @@ def threaded_ids(nthreads, per, rng, perturb=False):
         event_id_mod.time = old
 
 
+def source_constants():
+    """integer literals of the generator's module (a bound on the counter, a modulus, a width …): the request counts at
+    which the generator could start to behave differently"""
+    import ast
+    from harness import core
+    try:
+        tree = ast.parse((core.REPO / 'bobocep/cep/gen/event_id.py').read_text())
+    except Exception:   # noqa
+        return []
+    out = set()
+    for n in ast.walk(tree):
+        if isinstance(n, ast.Constant) and type(n.value) is int and 2 <= n.value <= 2_000_000:
+            out.add(n.value)
+    return sorted(out)
+
+
+def unrle(rle):
+    out = []
+    for v, k in rle:
+        out += [v] * k
+    return out
+
+
+def busy_seconds(consts):
+    """run-length coded clock scripts in which one logical second serves more requests than each constant, with the
+    clock at, one behind, two behind and ahead of that second when the count passes it"""
+    for n in consts:
+        for back in (0, 1, 2):
+            # the clock goes `back` seconds back, then stands still while n+3 requests arrive, then moves on
+            yield [[1000, 1], [1000 - back, n + 3], [1001, 2], [1002, 1]]
+            yield [[1000, 1], [1000 - back, 2 * n + 5], [1001, 1]]
+        yield [[1000, n // 2 + 1], [999, n // 2 + 3], [1000, n + 2], [1001, 2]]
+        yield [[1000, n + 2], [1001, n + 2], [1000, 3], [1002, 1]]
+
+
+def busy_violation(consts, res):
+    for rle in busy_seconds(consts):
+        for urn in ('s', None):
+            ids = impl_ids(urn, unrle(rle))
+            res.evaluations += 1
+            if not oracle(ids):
+                seen, dup, first = {}, None, None
+                for k, i in enumerate(ids):
+                    if i in seen:
+                        dup, first = i, (seen[i], k)
+                        break
+                    seen[i] = k
+                return Violation('duplicate-id', f"identifier {dup!r} issued twice (requests #{first[0] + 1} and #{first[1] + 1}) under the clock "
+                                 f"script (second, number of requests) {rle}", {'urn': urn, 'rle': rle})
+    return None
+
+
 def search(ctx: Ctx) -> Result:
-    """failing-input search on the real code alone: all step sequences over {-2..2} up to length 8."""
+    """failing-input search on the real code alone: busy seconds around every integer constant of the module and around
+    2^16 / 10^5, then all step sequences over {-2..2} up to length 8."""
     res = Result()
+    v = busy_violation(sorted(set(source_constants() + [65536, 100000])), res)
+    if v is not None:
+        res.violations.append(v)
+        return res
     for burst in (10, 11, 100, 101, 1000, 1001, 1100, 10001):
         for tail in ([8, 8, 9], [8, 6, 8, 9]):
             r = [7] * burst + tail
